@@ -4,6 +4,7 @@ From AT Require Import Num Vec Aff Farkas FM Equiv PTree Cells Abs Reduce Paths 
 (* x-acprune begin *) From AT Require Import ArenaCompose ACPrune. (* x-acprune end *)
 (* x-aelim begin *) From AT Require Import AElim AElimRefine. (* x-aelim end *)
 (* x-kprune begin *) From AT Require Import KPrune. (* x-kprune end *)
+(* x-kelim begin *) From AT Require Import KElim. (* x-kelim end *)
 Extraction Blacklist List String Int.
 Extraction "model_elim.ml"
   qc_of_float qz qfrac qleb qltb qeqb Qcplus Qcmult Qcopp Qcminus Qcdiv
@@ -20,4 +21,5 @@ Extraction "model_elim.ml"
   (* x-acprune begin *) acompose_prune acp_list acp_at terminal_keys st_eqb next_key (* x-acprune end *)
   (* x-aelim begin *) aelim arena_eqb acell_eqb arena_okb (* x-aelim end *)
   (* x-kprune begin *) kabs kcompose_prune kprune ktree_eqb_shape kerase (* x-kprune end *)
+  (* x-kelim begin *) kelim kelim_sub ktree_eqb k_state (* x-kelim end *)
   tree_equiv_skip thin_skip.
